@@ -1019,8 +1019,9 @@ impl<T: PackedInt> IntVec<T> {
                 };
             }
             
-            // Regular delta compression for sorted sequences
-            return Self::analyze_delta_bulk(values);
+            // Regular delta compression for sorted sequences. Exact maximum delta: the strided
+            // estimate of analyze_delta_bulk never sees the deltas after the last sampled index.
+            return Self::analyze_delta(values);
         }
 
         // 🚀 Single SIMD pass for min/max - eliminates multiple data traversals
